@@ -294,6 +294,43 @@ def ipv6_case(item):
     return part
 
 
+def tls_case(item):
+    """a server configured with an ssl context: every listener it opens - the passive ones too, with and without a
+    restricted port pool - is given that context (SimNet carries no TLS; what is compared is the listener's setting)"""
+    pool, verb = item
+    from vf.rig import Rig
+    part = report.Partial()
+    problems = []
+    marker = object()
+    skw = {"ssl": marker, "wait_future_timeout": 1}
+    if pool:
+        skw["data_ports"] = list(pool)
+    rig = Rig(tree=TREE, server_kwargs=skw)
+    try:
+        w = rig.world
+        rig.ev(0, "@connect")
+        rig.ev(0, "USER anonymous")
+        r = rig.ev(0, verb)
+        codes = [c for c, _ in (r or [])]
+        mine = [l for l in w.net.all_listeners if not l.closed and l.owner == "server"]
+        if codes[:1] not in (["227"], ["229"]) or len(mine) != 2:
+            problems.append({"kind": "replies", "line": verb, "got": codes, "expected": ["227|229"]})
+        for l in mine:
+            if getattr(l, "ssl", None) is not marker:
+                problems.append({"kind": "listener-without-the-configured-ssl-context", "port": l.port, "pool": list(pool)})
+        part.evaluations += 1
+        part.traces += 1
+        part.transitions += w.net.n_events
+        k = report.fp(["tls", list(pool), verb])
+        part.states.add(k)
+        part.nontrivial.add(k)
+        for p_ in problems[:1]:
+            part.violation({"kind": p_["kind"], "verb": verb, "tls": True}, {"problem": p_}, replay={"tls": [list(pool), verb]})
+    finally:
+        rig.close()
+    return part
+
+
 def run(tier, seed, t0):
     parts = []
     if tier == "quick":
@@ -324,11 +361,13 @@ def run(tier, seed, t0):
         parts.append(sweep("pathio", ["USER anonymous", "PASV", "@data"], REDUCED, 2))
         parts.append(sweep("memory", ["USER anonymous", "EPSV", "@data", "REST 2"], ALPHABET, 2))
     parts.append(sweep_hist("memory", attribute_name_histories(), "attribute-names"))
+    parts += report.pmap(tls_case, [(pool, verb) for pool in ((), (30001,), (30001, 30002)) for verb in ("PASV", "EPSV")])
     parts += report.pmap(ipv6_case, [(pre,) for pre in ([], ["PWD"], ["EPSV"], ["EPSV", "@data"], ["REST 2"])])
     parts += report.pmap(timeout_case, [(pre, line) for pre in TIMEOUT_PREFIXES for line in ALPHABET])
     part = report.merge_all(parts)
     bounds = {"path_timeout": "every command of the alphabet from %d prefixes on a server with path_timeout=0.05 whose "
                               "backend calls take 0.125 s" % len(TIMEOUT_PREFIXES),
+              "tls_configuration": "ssl context given to the server: control and passive listeners (no pool / pools of 1 and 2 ports) all carry it",
               "ipv6": "control connection over ::1: PASV (503) from 5 pre-states must leave no listener and no passive state; EPSV works",
               "attribute_names": "every attribute name of aioftp.Server that is not an FTP command, sent as a verb (before / after login, with an argument)",
               "alphabet_size": len(ALPHABET), "reduced_alphabet": len(REDUCED), "tier_depths": "quick: memory 4, pathio 3, async 2; "
@@ -346,6 +385,10 @@ def run(tier, seed, t0):
 def replay(path):
     data = json.loads(open(path).read())
     rp = data["replay"]
+    if "tls" in rp:
+        part = tls_case((tuple(rp["tls"][0]), rp["tls"][1]))
+        print(json.dumps([v["detail"] for v in part.violations], indent=1, default=repr))
+        return 1 if part.violations else 0
     if "ipv6" in rp:
         part = ipv6_case((rp["ipv6"][0],))
         print(json.dumps([v["detail"] for v in part.violations], indent=1, default=repr))
